@@ -1,9 +1,10 @@
 import PedalModel.DriverLoop
-import PedalModel.Resolver
+import PedalModel.ResolverIR
 open Pedal
 
 def dispatch : List String → String
-  | "resolve" :: ts => Resolver.handle ts
+  | "resolve" :: ts => Resolver.handleIR ts      -- merge/finalize from the program generated from the tree under test
+  | "resolveh" :: ts => Resolver.handle ts      -- the hand-written model (equal by `resolveIR_eq_resolve`)
   | "reskey" :: ts => Resolver.handleKey ts
   | "score" :: ts => Resolver.handleScore ts
   | _ => "bad-request"
